@@ -5,6 +5,7 @@ package main
 
 import (
 	"context"
+	"encoding/json"
 	"fmt"
 	"math/rand"
 	"runtime"
@@ -141,8 +142,26 @@ func (e *e2eEnv) runScheduled(q string, vars map[string]interface{}, prio map[st
 	return &e2eRun{Query: q, Vars: vars, Resp: out.r, Requests: e.world.requests(), Doc: doc, Op: doc.Operations[0]}, rel, nil
 }
 
+// errorMultiset: the errors as a multiset of whole error objects (message, path, locations, extensions).
 func errorMultiset(errs []gwError) string {
-	s := errorSummary(errs)
+	var s []string
+	for _, e := range errs {
+		if ss, ok := e.Extensions["selectionSet"].(string); ok {
+			// the step's selection set as text: the planner lists the member types of an abstract field in Go map order, anew
+			// for every request, whatever the completion order; it is compared as a multiset of tokens
+			toks := strings.Fields(ss)
+			sort.Strings(toks)
+			ext := map[string]interface{}{}
+			for k, v := range e.Extensions {
+				ext[k] = v
+			}
+			ext["selectionSet"] = strings.Join(toks, " ")
+			e.Extensions = ext
+		}
+		b, _ := json.Marshal(e)
+		s = append(s, string(b))
+	}
+	sort.Strings(s)
 	return strings.Join(s, " | ")
 }
 
@@ -229,6 +248,15 @@ func runC06(cfg runCfg) error {
 				kind = "errors_partial"
 			}
 			faults = append(faults, faultSpec{Svc: rq.Svc, Target: faultTarget(env.fed, rq), Kind: kind})
+			if len(lookups) >= 2 && !limited && r.Intn(2) == 0 {
+				// two lookups failing alike (same failure kind, hence the same message; often at one insertion point, hence the
+				// same path): each failure is reported, by its own error, whichever is answered first
+				a := r.Intn(len(lookups))
+				b := (a + 1 + r.Intn(len(lookups)-1)) % len(lookups)
+				k2 := []string{"status", "transport", "errors_null"}[r.Intn(3)]
+				faults = []faultSpec{{Svc: lookups[a].Svc, Target: faultTarget(env.fed, lookups[a]), Kind: k2}, {Svc: lookups[b].Svc, Target: faultTarget(env.fed, lookups[b]), Kind: k2}}
+				sum.Features["two_lookups_failing_alike"]++
+			}
 		}
 		max := int64(50)
 		if limited {
